@@ -57,7 +57,7 @@ def inst_C05(d):
         form = "grid" if "grid" in d else ("array1d" if d.get("as_array") else "list")
         return "%s-%s" % (form, "primitive" if prim else "auxiliary")
 
-    return emission.Inst(declare, emit, pred, classify)
+    return emission.Inst(declare, emit, pred, classify, alphas=(lambda caller: deep_alphas(d)) if d.get("deep") else None)
 
 
 def descs_C05(tier):
@@ -139,7 +139,7 @@ def inst_C06(d):
         act = state["val"](alpha) if "val" in state else list(alpha)
         return "no-active-edge" if not any(act) else "some-active-edge"
 
-    return emission.Inst(declare, emit, pred, classify)
+    return emission.Inst(declare, emit, pred, classify, alphas=(lambda caller: deep_alphas(d)) if d.get("deep") else None)
 
 
 def descs_C06(tier):
@@ -270,7 +270,7 @@ def inst_C07(d):
     def classify(alpha):
         return "border"
 
-    return emission.Inst(declare, emit, pred, classify)
+    return emission.Inst(declare, emit, pred, classify, alphas=(lambda caller: deep_alphas(d)) if d.get("deep") else None)
 
 
 def descs_C07(tier):
@@ -328,7 +328,7 @@ def inst_C08(d):
             return "single-row-or-column" if min(h, w) == 1 else "grid>=2x2"
         return "graph"
 
-    return emission.Inst(declare, emit, pred, classify)
+    return emission.Inst(declare, emit, pred, classify, alphas=(lambda caller: deep_alphas(d)) if d.get("deep") else None)
 
 
 def descs_C08(tier):
@@ -365,7 +365,7 @@ def inst_C09(d):
     def pred(alpha):
         return graphpred.edges_acyclic(n, edges, state["val"](alpha))
 
-    return emission.Inst(declare, emit, pred, lambda a: "any")
+    return emission.Inst(declare, emit, pred, lambda a: "any", alphas=(lambda caller: deep_alphas(d)) if d.get("deep") else None)
 
 
 def descs_C09(tier):
@@ -418,7 +418,7 @@ def inst_C10(d):
     def classify(alpha):
         return "no-segment" if not any(alpha) else "segments"
 
-    return emission.Inst(declare, emit, pred, classify)
+    return emission.Inst(declare, emit, pred, classify, alphas=(lambda caller: deep_alphas(d)) if d.get("deep") else None)
 
 
 def descs_C10(tier):
@@ -428,3 +428,178 @@ def descs_C10(tier):
             for prim in (False, True):
                 yield dict(func="active_edges_connected_crossable", frame=[h, w], single_cycle=sc, prim=prim)
         yield dict(func="active_edges_connected_crossable", frame=[h, w], single_cycle=True, prim=False, via="cycle_fn")
+
+
+# ------------------------------------------------------------------------------------------- deep instances
+# Structures too large to enumerate, with structured assignments that need deep rank certificates
+# (long paths, snakes, zig-zag diagonal chains) plus single-variable mutations of them.  They exist
+# because a too-small rank domain is invisible on the small exhaustive scope.
+import random as _random
+
+
+def path_edges(n):
+    return [(i, i + 1) for i in range(n - 1)]
+
+
+def cycle_edges(n):
+    return [(i, (i + 1) % n) for i in range(n)]
+
+
+def _mutations(base, rnd, k, values=(False, True)):
+    out = [list(base)]
+    for _ in range(k):
+        a = list(base)
+        j = rnd.randrange(len(a)) if a else 0
+        if a:
+            a[j] = rnd.choice([v for v in values if v != a[j]] or list(values))
+        out.append(a)
+    return out
+
+
+def deep_alphas(d):
+    rnd = _random.Random(hash(json_key(d)) % 100000)
+    f = d["func"]
+    if f == "active_vertices_connected":
+        n, _ = _struct(d)
+        bases = [[True] * n, [True] * (n - 1) + [False], [False] + [True] * (n - 1), [i % 2 == 0 for i in range(n)], [False] * n,
+                 [i < n // 2 for i in range(n)]]
+        if "grid" in d:
+            h, w = d["grid"]
+            snake = [[False] * w for _ in range(h)]
+            for y in range(0, h, 2):
+                for x in range(w):
+                    snake[y][x] = True
+                if y + 1 < h:
+                    snake[y + 1][(w - 1) if (y // 2) % 2 == 0 else 0] = True
+            bases.append([snake[y][x] for y in range(h) for x in range(w)])
+        return [a for b in bases for a in _mutations(b, rnd, 4)]
+    if f == "division_connected":
+        n, _ = _struct(d)
+        R = d["R"]
+        bases = [[0] * n, [min(i * R // n, R - 1) for i in range(n)], [(R - 1) if i == n - 1 else 0 for i in range(n)],
+                 [i % R for i in range(n)]]
+        return [a for b in bases for a in _mutations(b, rnd, 4, values=tuple(range(R)))]
+    if f in ("active_edges_single_cycle", "active_edges_single_path", "active_edges_acyclic"):
+        m = len(_edges_of(d))
+        bases = [[True] * m, [True] * (m - 1) + [False], [False] * m, [i % 2 == 0 for i in range(m)], [False] + [True] * (m - 1)]
+        return [a for b in bases for a in _mutations(b, rnd, 5)]
+    if f.startswith("active_vertices_not_adjacent"):
+        h, w = d["grid"]
+        bases = []
+        for (y0, x0) in [(0, 0), (0, 1), (1, 0), (0, w - 1), (h - 1, 0)]:
+            for rows in ((1, 2), (0, 1), (2, 3), (h - 3, h - 2)):
+                if min(rows) < 0 or max(rows) >= h:
+                    continue
+                g = [[False] * w for _ in range(h)]
+                # border-rooted zig-zag diagonal chain along two interior rows
+                y, x, cells = y0, x0, []
+                while 0 <= x < w:
+                    cells.append((y, x))
+                    x += 1
+                    y = rows[0] if y != rows[0] else rows[1]
+                for k in range(1, len(cells) + 1):
+                    g2 = [[False] * w for _ in range(h)]
+                    for (cy, cx) in cells[:k]:
+                        g2[cy][cx] = True
+                    bases.append([g2[yy][xx] for yy in range(h) for xx in range(w)])
+        for _ in range(12):
+            g = [[False] * w for _ in range(h)]
+            cells = [(y, x) for y in range(h) for x in range(w)]
+            rnd.shuffle(cells)
+            for (y, x) in cells:
+                if not any(0 <= y + dy < h and 0 <= x + dx < w and g[y + dy][x + dx] for dy, dx in ((1, 0), (-1, 0), (0, 1), (0, -1))) and rnd.random() < 0.8:
+                    g[y][x] = True
+            bases.append([g[yy][xx] for yy in range(h) for xx in range(w)])
+        out = []
+        for b in bases:
+            out += _mutations(b, rnd, 1)
+        return out
+    if f.startswith("division_connected_variable_groups"):
+        n, edges = _struct(d)
+        m = len(edges)
+        bases = [[False] * m, [True] * m, [i == m // 2 for i in range(m)], [i % 3 == 0 for i in range(m)]]
+        return [a + [] for b in bases for a in _mutations(b, rnd, 4)]
+    if f.startswith("active_edges_connected_crossable") or f.startswith("active_edges_single_cycle_crossable"):
+        h, w = d["frame"]
+        nh, nv = (h + 1) * w, h * (w + 1)
+        hk = [(y, x) for y in range(h + 1) for x in range(w)]
+        vk = [(y, x) for y in range(h) for x in range(w + 1)]
+        def pack(hs, vs):
+            return [k in hs for k in hk] + [k in vs for k in vk]
+        per_h = {(0, x) for x in range(w)} | {(h, x) for x in range(w)}
+        per_v = {(y, 0) for y in range(h)} | {(y, w) for y in range(h)}
+        bases = [pack(per_h, per_v), pack(set(), set()), pack({(0, x) for x in range(w)}, set()),
+                 pack({(y, x) for y in range(h + 1) for x in range(w)}, {(y, x) for y in range(h) for x in range(w + 1)})]
+        if h >= 2 and w >= 2:
+            # figure eight through the point (1, 1)
+            bases.append(pack({(0, 0), (1, 0), (1, 1), (2, 1)}, {(0, 0), (0, 1), (1, 1), (1, 2)}))
+        return [a for b in bases for a in _mutations(b, rnd, 6)]
+    raise ValueError(f)
+
+
+def json_key(d):
+    import json
+    return json.dumps(d, sort_keys=True)
+
+
+def _edges_of(d):
+    if "frame" in d:
+        return _frame_struct(*d["frame"])[1]
+    return [tuple(e) for e in d["edges"]]
+
+
+def deep_descs(prop, tier):
+    big = tier != "quick"
+    P = lambda n: [list(e) for e in path_edges(n)]
+    C = lambda n: [list(e) for e in cycle_edges(n)]
+    out = []
+    if prop == "C04":
+        for n in (7, 10) + ((14,) if big else ()):
+            for acyclic in (False, True):
+                out.append(dict(func="active_vertices_connected", n=n, edges=P(n), acyclic=acyclic, prim=False, form="vars", deep=True))
+                out.append(dict(func="active_vertices_connected", n=n, edges=C(n), acyclic=acyclic, prim=False, form="vars", deep=True))
+        for g in ((1, 12), (12, 1), (4, 6), (6, 4)) + (((5, 7), (3, 10)) if big else ()):
+            for acyclic in (False, True):
+                out.append(dict(func="active_vertices_connected", grid=list(g), acyclic=acyclic, prim=False, form="vars", deep=True))
+    if prop == "C05":
+        for n in (8, 11):
+            for R in (2, 3):
+                for allow in (False, True):
+                    for roots in (None, [n - 1] + [None] * (R - 1), [None] * (R - 1) + [0]):
+                        out.append(dict(func="division_connected", n=n, edges=P(n), R=R, roots=roots, allow_empty=allow, prim=False, as_array=True, deep=True))
+        for g in ((1, 9), (9, 1), (3, 4), (4, 3)):
+            for allow in (False, True):
+                out.append(dict(func="division_connected", grid=list(g), R=2, roots=[g[0] * g[1] - 1, None], allow_empty=allow, prim=False, deep=True))
+    if prop == "C06":
+        for n in (8, 11):
+            for prim in (False, True):
+                out.append(dict(func="active_edges_single_cycle", n=n, edges=C(n), prim=prim, form="vars", deep=True))
+                out.append(dict(func="active_edges_single_cycle", n=n, edges=C(n) + [[0, 1]], prim=prim, form="vars", deep=True))
+            out.append(dict(func="active_edges_single_path", n=n, edges=P(n), prim=True, form="vars", deep=True))
+        for fr in ((3, 3), (2, 5), (5, 2)):
+            for prim in (False, True):
+                out.append(dict(func="active_edges_single_cycle", frame=list(fr), prim=prim, deep=True))
+    if prop == "C07":
+        for n in (7, 9):
+            for sf in ("none", "const%d" % n, "list:" + ",".join(["-"] * (n - 1) + [str(n)])):
+                for prim in (False, True):
+                    out.append(dict(func="division_connected_variable_groups_with_borders", n=n, edges=P(n), size=sf, prim=prim, deep=True))
+        for g in ((1, 8), (3, 3), (2, 5)):
+            sf = "list:" + ",".join(["-"] * (g[0] * g[1] - 1) + [str(g[0] * g[1])])
+            for prim in (False, True):
+                out.append(dict(func="division_connected_variable_groups_with_borders", grid=list(g), size=sf, prim=prim, deep=True))
+    if prop == "C08":
+        for g in ((4, 6), (6, 4), (5, 7)) + (((4, 7), (7, 5), (3, 8), (8, 3), (6, 9), (9, 6), (5, 8)) if big else ()):
+            out.append(dict(func="active_vertices_not_adjacent_and_not_segmenting", grid=list(g), as_grid=True, form="vars", deep=True))
+            out.append(dict(func="active_vertices_not_adjacent_and_not_segmenting", grid=list(g), as_grid=False, form="vars", deep=True))
+    if prop == "C09":
+        for n in (8, 9, 12, 13):
+            out.append(dict(func="active_edges_acyclic", n=n, edges=P(n), form="vars", deep=True))
+            out.append(dict(func="active_edges_acyclic", n=n, edges=C(n), form="vars", deep=True))
+            out.append(dict(func="active_edges_acyclic", n=n, edges=[[0, i] for i in range(1, n)], form="vars", deep=True))
+    if prop == "C10":
+        for fr in ((3, 3), (2, 4), (4, 2)) + (((3, 4), (4, 3)) if big else ()):
+            for sc in (False, True):
+                for prim in (False,):      # the reference encoding of the native operator is cubic in the graph size
+                    out.append(dict(func="active_edges_connected_crossable", frame=list(fr), single_cycle=sc, prim=prim, deep=True))
+    return out
